@@ -19,6 +19,9 @@ def entries():
     for p in sorted(glob.glob(os.path.join(HERE, 'regressions', '*.diff'))):
         prop = os.path.basename(p).split('_')[0]
         out.append(dict(prop=prop, name='regression/' + os.path.basename(p)[:-5], kind='patch', patch=os.path.relpath(p, ROOT), expect='violation'))
+    for p in sorted(glob.glob(os.path.join(HERE, 'harmless', '*.diff'))):
+        prop, nm = os.path.basename(p)[:-5].split('__', 1)
+        out.append(dict(prop=prop, name='harmless/' + nm, kind='patch', patch=os.path.relpath(p, ROOT), expect='held'))
     R = lambda prop, name, file, pat, rep, expect, only=None, count=1: out.append(
         dict(prop=prop, name=name, kind='regex', file=file, pat=pat, rep=rep, expect=expect, only=only, count=count))
     # --- breaking edits
